@@ -313,7 +313,7 @@ func ruleC07Extra(prog *Program, rep *Report) {
 	ruleRestore(prog, rep)
 	ruleReturnAlias(prog, rep, "C07")
 	ruleBorrowedWrites(prog, rep)
-	rulePoolPut(prog, rep) // an instance put back before its last use is reset by the next caller in the middle of this call
+	rulePoolPut(prog, rep)       // an instance put back before its last use is reset by the next caller in the middle of this call
 	ruleCursorAdvance(prog, rep) // the Reuse option recycles maps through a cursor
 }
 
